@@ -179,6 +179,14 @@ def w_entrypoints(arg):
 
 # --------------------------------------------------------------------------------- parent side
 UNTIDY = [
+    # statements that nothing gets past, directly in the module body and in a class body, followed by more of the surface (a script whose entry point comes
+    # first, a deprecation stub, a plug-in that refuses to load)
+    "import sys\n\n\ndef main():\n    return helperOne() + LATE_CONSTANT\n\n\nif len(sys.argv) > 99:\n    raise SystemExit(main())\n\n\ndef helperOne():\n    return 1\n\n\nLATE_CONSTANT = 2\n\n\nclass LateClass:\n    attr = 3\n",
+    "def first():\n    return 1\n\n\nraise SystemExit(first())\n\n\ndef secondFunc():\n    return 2\n\n\nSECOND_CONSTANT = 5\nclass AfterRaise:\n    pass\n",
+    "def early():\n    return 1\n\n\nassert False, 'this module is a stub'\n\n\ndef lateFunc():\n    return 2\n\n\nlateValue = 3\n",
+    "import warnings\n\n\nwhile True:\n    warnings.warn('spin')\n\n\ndef never_reached_but_defined_for_importers():\n    return 1\n\n\nAFTER_LOOP = 1\n",
+    "class Stub:\n    first_attr = 1\n\n    def before(self):\n        return 1\n\n    raise NotImplementedError('abstract')\n\n    def afterRaise(self):\n        return 2\n\n    late_attr = 2\n",
+    "import sys\nif True:\n    sys.exit(0)\n\n\ndef after_exit():\n    return 1\n\n\nAFTER_EXIT = 2\n",
     # async methods, class attributes bound by tuple / list / starred unpacking, annotated and augmented class attributes, nested definitions
     "import asyncio\n\n\nclass JobRunner:\n    RED, GREEN, blueValue = 1, 2, 3\n    lowest, *restVals = 1, 2, 3\n    [firstVal, secondVal] = 4, 5\n    (innerA, (innerB, innerC)) = 6, (7, 8)\n"
     "    counterValue: int = 0\n    counterValue += 1\n\n    async def fromConfig(self, cfg):\n        return cfg\n\n    async def runAll(self):\n        await asyncio.sleep(0)\n\n"
